@@ -598,8 +598,7 @@ def install_bundler_spies(blog):
                 blog.append(("step", name, number(self)))
             if name == "close_run" and depth == 0:
                 m = a[0]
-                key = m.kwargs["run_id"] if "exit_status" in m.kwargs and "run_id" in m.kwargs else m.run
-                blog.append(("close", number(self), key))
+                blog.append(("close", number(self), m.run, "exit_status" in m.kwargs))
             if outer:
                 self._c14_depth = depth + 1
 
@@ -779,7 +778,7 @@ def _violations(obligation, res):
             return uneven
         if tag.startswith("ensures[concurrent runs: a close_run message"):
             for e in res.get("bundler_log", []):
-                if e[0] == "close" and not (e[1] in key_of and key_of[e[1]] == e[2] and type(key_of[e[1]]) is type(e[2])):
+                if e[0] == "close" and not e[3] and not (e[1] in key_of and key_of[e[1]] == e[2] and type(key_of[e[1]]) is type(e[2])):
                     bad.append(f"close_run for key {e[2]!r} closed run #{e[1]}, opened under key {key_of.get(e[1])!r}")
             return bad
         if tag.startswith("ensures[concurrent runs: when the engine is idle again"):
